@@ -123,6 +123,12 @@ CHECKS = {
         "Rendering-branch prediction (symbol / pushed prefix / symbol-less prefix / folded magnitude) is computed from the unit's structure and the prefix registry, not from the produced text.",
         "§4 C13",
     ),
+    "C15": (
+        "exhaustive enumeration of every registered dimension/prefix/named unit + Hypothesis compound units and quantities (int incl. huge, float incl. inf, Decimal incl. 40 digits) through pickle 2-5, copy, deepcopy, JSON encoder/decoder, codecs_installed, pydantic, SQL composite; round-trip oracle with registry snapshots",
+        "Exploration with an exhaustively enumerated registry: every interned object must come back as the identical object with unchanged names/symbols from every codec; quantities must come back equal, with the same magnitude type and (pickle/copy) the identical unit object; decoding must not change the name/symbol registries.",
+        "pickle protocols 0/1 excluded (Python refuses them for __slots__ classes); pydantic path skips non-finite floats (pydantic writes them as null).",
+        "§4 C15",
+    ),
 }
 
 NOT_YET = {}
